@@ -406,6 +406,11 @@ impl FreeList {
         }
     }
 
+    pub fn verif_encode_page(page_pool: &PagePool, prev: u32, items: &[u32]) -> Vec<u8> {
+        let items: Vec<PageNumber> = items.iter().map(|pn| PageNumber(*pn)).collect();
+        encode_free_list_page(page_pool, PageNumber(prev), &items)[..].to_vec()
+    }
+
     pub fn verif_portions(&self) -> Vec<(u32, Vec<u32>)> {
         self.portions
             .iter()
